@@ -8,5 +8,6 @@ CONSTANTS Design = "repaired"
           MaxFaults = 1
           MaxLoggers = 2
           MaxSwitch = 2
+          Slim = TRUE
 INVARIANTS LinesWholeInOrder FileNameRight RotatesAfterCycle SuppressedOnlyWithin RetentionExact ReadHonest NoFaultNoLoss SurvivorsSurvive OldRemoved Recovers
 CHECK_DEADLOCK FALSE
